@@ -25,6 +25,8 @@ pub struct Profile {
     pub w_new_arena: u32,
     pub w_drop_arena: u32,
     pub w_drop_fault: u32,
+    pub w_sweep_fault: u32,
+    pub w_drop_unwinding: u32,
     pub w_settle: u32,
     // op weights
     pub o_alloc: u32,
@@ -71,6 +73,8 @@ impl Profile {
             w_new_arena: 0,
             w_drop_arena: 0,
             w_drop_fault: 0,
+            w_sweep_fault: 0,
+            w_drop_unwinding: 0,
             w_settle: 4,
             o_alloc: 30,
             o_link: 30,
@@ -235,6 +239,8 @@ pub fn step_strategy(p: &Profile) -> BoxedStrategy<Step> {
         (p.w_new_arena, (any::<u8>(), any::<bool>(), if p.w_cb_panic > 0 { outcome() } else { Just(Outcome::Ok).boxed() }, ops(p, false)).prop_map(|(preset, fallible, outcome, ops)| Step::NewArena { preset, fallible, outcome, ops }).boxed()),
         (p.w_drop_arena, arena().prop_map(|arena| Step::DropArena { arena }).boxed()),
         (p.w_drop_fault, (1u8..24).prop_map(|k| Step::ArmDropPanic { k }).boxed()),
+        (p.w_sweep_fault, (0u8..12).prop_map(|k| Step::ArmSweepPanic { k }).boxed()),
+        (p.w_drop_unwinding, arena().prop_map(|arena| Step::DropArenaUnwinding { arena }).boxed()),
         (p.w_settle, arena().prop_map(|arena| Step::Settle { arena }).boxed()),
     ];
     weighted(v)
